@@ -30,7 +30,12 @@ func policyNoAction(c *Ctx) {
 	slots := numberSlots(shape)
 	n := 0
 	universe := [][]string{{}, {"x"}, {"-f"}, {"-f", "x"}, {"-z"}, {"7"}, {"zz"}}
+	unit := 0
 	kindAssignments(len(slots), []int{3, 7, 14}, func(assign []int) {
+		unit++
+		if !c.Mine(unit) || !c.Begin("policy-no-action", fmt.Sprint(assign)) {
+			return
+		}
 		as := append([]int{}, assign...)
 		for mask := 1; mask < 4; mask++ { // the root (slot of shape) and its first child group
 			na := map[int]bool{}
@@ -47,6 +52,7 @@ func policyNoAction(c *Ctx) {
 					per[i] = levelArgvs(nd, universe)
 				}
 				enumInvocations(path, names, per, func(args []string, own [][]string) {
+					c.Beat()
 					for rp := 0; rp < 3; rp++ {
 						pols := make([]int, len(slots))
 						for i := range pols {
@@ -56,22 +62,24 @@ func policyNoAction(c *Ctx) {
 						c07NoAction = na
 						policyCaseV(c, 0, shape, as, pols, append([]string{}, args...), false)
 						c07NoAction = nil
-						n++
+						c.Count("no_action_cases", 1)
 					}
 				})
 			})
 		}
 	})
-	c.Note("groups without an Action", fmt.Sprintf("%d cases: shape 0, specs %q / %q / %q on every level, no Action on the root, on its first child group or on both, per-level argvs %v, three root policies; rejected invocations judged as everywhere, accepted ones that end on an Action-less command not judged", n, lvlKinds[3].spec, lvlKinds[7].spec, lvlKinds[14].spec, universe))
+	_ = n
+	if c.Shard != 0 {
+		return
+	}
+	c.Note("groups without an Action", fmt.Sprintf("shape 0 (counter no_action_cases), %d spec assignments: specs %q / %q / %q on every level, no Action on the root, on its first child group or on both, per-level argvs %v, three root policies; rejected invocations judged as everywhere, accepted ones that end on an Action-less command not judged", unit, lvlKinds[3].spec, lvlKinds[7].spec, lvlKinds[14].spec, universe))
 }
 
 func runPolicy(c *Ctx) {
 	if c.Shard == 0 && c.Begin("policy-versioned") {
 		policyVersioned(c)
 	}
-	if c.Shard == 0 && c.Begin("policy-no-action") {
-		policyNoAction(c)
-	}
+	policyNoAction(c)
 	if c.Shard == 0 && c.Begin("policy-deep") {
 		deepReject(c)
 	}
